@@ -1,5 +1,6 @@
 //! Request generators, one per property.  Everything random derives from `seed`.
 
+use crate::expr::*;
 use crate::util::*;
 use std::fs;
 use std::io::{BufWriter, Write};
@@ -33,6 +34,7 @@ pub fn generate(prop: &str, tier: &str, seed: u64, outdir: &str) {
     match prop {
         "C17" => gen_c17(&mut out, &mut rng, thorough),
         "C18" => gen_c18(&mut out, &mut rng, thorough),
+        "C13" => gen_c13(&mut out, &mut rng, thorough),
         _ => {
             eprintln!("no generator for {prop}");
             std::process::exit(2);
@@ -204,5 +206,114 @@ fn gen_c18(out: &mut Out, rng: &mut Rng, thorough: bool) {
             }
         };
         ts_req(out, "save_reopen", "ts_save", ns);
+    }
+}
+
+// ------------------------------------------------------------------------------------
+// C13
+
+pub fn c13_values() -> Vec<V> {
+    vec![
+        V::Null, V::Int(0), V::Int(1), V::Int(-1), V::Int(2), V::Int(31), V::Int(32),
+        V::Int(i32::MIN), V::Int(i32::MAX), V::Str(String::new()), V::Str("a".into()),
+        V::Str("b".into()),
+    ]
+}
+
+pub fn c13_row() -> Vec<(String, V)> {
+    c13_values().into_iter().enumerate().map(|(i, v)| (format!("c{i}"), v)).collect()
+}
+
+pub fn c13_leaves() -> Vec<E> {
+    let mut l: Vec<E> = c13_values().into_iter().map(E::Lit).collect();
+    for i in 0..12 {
+        l.push(E::Col(format!("c{i}")));
+    }
+    l
+}
+
+pub fn random_expr(rng: &mut Rng, depth: usize, leaves: &[E]) -> E {
+    if depth == 0 || rng.chance(1, 5) {
+        return rng.pick(leaves).clone();
+    }
+    if rng.chance(1, 5) {
+        let op = *rng.pick(UNOPS);
+        E::Un(op, Box::new(random_expr(rng, depth - 1, leaves)))
+    } else {
+        let op = *rng.pick(BINOPS);
+        E::Bin(
+            op,
+            Box::new(random_expr(rng, depth - 1, leaves)),
+            Box::new(random_expr(rng, depth - 1, leaves)),
+        )
+    }
+}
+
+fn gen_c13(out: &mut Out, rng: &mut Rng, thorough: bool) {
+    let row = c13_row();
+    let rt = row_toks(&row);
+    let leaves = c13_leaves();
+    // depth 1, exhaustive: every operator on every (pair of) leaf
+    for op in UNOPS {
+        for a in &leaves {
+            let e = E::Un(op, Box::new(a.clone()));
+            out.req("depth1", format!("eval {rt} {}", e.to_line()));
+        }
+    }
+    for op in BINOPS {
+        for a in &leaves {
+            for b in &leaves {
+                let e = E::Bin(op, Box::new(a.clone()), Box::new(b.clone()));
+                out.req("depth1", format!("eval {rt} {}", e.to_line()));
+            }
+        }
+    }
+    out.exhaustive.push("all depth-1 trees: 18 operators x 24 leaves (12 literals + 12 columns holding the same values)".into());
+    // depth 2, exhaustive over operator pairs and positions with integer-boundary leaves
+    let small: Vec<E> = vec![
+        E::Lit(V::Int(i32::MIN)), E::Lit(V::Int(i32::MAX)), E::Lit(V::Int(-1)), E::Lit(V::Int(32)),
+        E::Col("c7".into()), E::Col("c8".into()), E::Col("c0".into()), E::Col("c10".into()),
+    ];
+    for outer in BINOPS {
+        for inner in BINOPS {
+            for a in &small {
+                for b in &small {
+                    for c in &small {
+                        if rng.chance(if thorough { 1 } else { 1 }, if thorough { 1 } else { 6 }) {
+                            let l = E::Bin(inner, Box::new(a.clone()), Box::new(b.clone()));
+                            let e1 = E::Bin(outer, Box::new(l.clone()), Box::new(c.clone()));
+                            let e2 = E::Bin(outer, Box::new(c.clone()), Box::new(l));
+                            out.req("depth2", format!("eval {rt} {}", e1.to_line()));
+                            out.req("depth2", format!("eval {rt} {}", e2.to_line()));
+                        }
+                    }
+                }
+            }
+        }
+        for inner in UNOPS {
+            for a in &small {
+                for c in &small {
+                    let l = E::Un(inner, Box::new(a.clone()));
+                    let e1 = E::Bin(outer, Box::new(l.clone()), Box::new(c.clone()));
+                    out.req("depth2", format!("eval {rt} {}", e1.to_line()));
+                    let e3 = E::Un(inner, Box::new(E::Bin(outer, Box::new(a.clone()), Box::new(c.clone()))));
+                    out.req("depth2", format!("eval {rt} {}", e3.to_line()));
+                }
+            }
+        }
+    }
+    // random deeper trees (to depth 6)
+    let n = if thorough { 3_000_000 } else { 100_000 };
+    for _ in 0..n {
+        let d = 2 + rng.below(5) as usize;
+        let e = random_expr(rng, d, &leaves);
+        out.req("random_deep", format!("eval {rt} {}", e.to_line()));
+    }
+    // a row that lacks a referenced column: the documented panic of Row indexing (not part of
+    // the property, which quantifies over rows having the columns); compared model vs real only
+    let short: Vec<(String, V)> = row[..3].to_vec();
+    for _ in 0..200 {
+        let e = random_expr(rng, 2, &leaves);
+        out.req("missing_column", format!("eval {} {}", row_toks(&short), e.to_line()));
     }
 }
